@@ -18,8 +18,27 @@ def _fin(sess, value):
     return value
 
 
-STARTUP = ["complete", "failed", "raises (no lifespan support)", "hangs", "returns without answering", "sends an unknown message", "complete after 2 s"]
-SHUTDOWN = ["complete", "failed", "raises", "hangs", "returns without answering"]
+def _session_class(flavour: int):
+    if flavour == 0:
+        return WSession
+    from vf.stubs.twsess import TWSession
+
+    return TWSession
+
+
+def _is(err, cls) -> bool:
+    """err is a `cls`, or an exception group (trio nurseries wrap what they re-raise) all of whose leaves are."""
+    if isinstance(err, cls):
+        return True
+    if hasattr(err, "all_leaves_are"):  # the trio session runs in a child process: vf.stubs.twsess.RemoteError
+        return err.all_leaves_are(cls)
+    if isinstance(err, BaseExceptionGroup):
+        return len(err.exceptions) > 0 and all(_is(e, cls) for e in err.exceptions)
+    return False
+
+
+STARTUP = ["complete", "failed", "raises (no lifespan support)", "hangs", "returns without answering", "sends an unknown message", "complete after 2 s", "failed without the optional message"]
+SHUTDOWN = ["complete", "failed", "raises", "hangs", "returns without answering", "failed without the optional message"]
 
 
 def make_app(su: int, sd: int, work: dict):
@@ -41,13 +60,16 @@ def make_app(su: int, sd: int, work: dict):
                 elif su == 2:
                     raise RuntimeError("lifespan is not supported")
                 elif su == 3:
-                    await asyncio.sleep(10000)
+                    await sess.sleep(10000)
                 elif su == 4:
                     return
                 elif su == 5:
                     await send({"type": "lifespan.startup.bogus"})
+                elif su == 7:
+                    await send({"type": "lifespan.startup.failed"})
+                    return
                 else:
-                    await asyncio.sleep(2)
+                    await sess.sleep(2)
                     await send({"type": "lifespan.startup.complete"})
                 log.append(("startup done", sess.now))
                 m = await receive()
@@ -59,7 +81,9 @@ def make_app(su: int, sd: int, work: dict):
                 elif sd == 2:
                     raise RuntimeError("shutdown broke")
                 elif sd == 3:
-                    await asyncio.sleep(10000)
+                    await sess.sleep(10000)
+                elif sd == 5:
+                    await send({"type": "lifespan.shutdown.failed"})
                 return
             if scope["type"] == "websocket":
                 log.append(("ws", sess.now))
@@ -78,7 +102,7 @@ def make_app(su: int, sd: int, work: dict):
                     break
             d = work.get(scope["raw_path"], 0)
             if d:
-                await asyncio.sleep(d)
+                await sess.sleep(d)
             await send({"type": "http.response.start", "status": 200, "headers": [(b"content-length", b"2")]})
             await send({"type": "http.response.body", "body": b"ok", "more_body": False})
             log.append(("answered", scope["raw_path"], sess.now))
@@ -91,47 +115,52 @@ def make_app(su: int, sd: int, work: dict):
 
 @harness(
     "C14",
-    dom={"su": (0, 6), "sd": (0, 4), "early": "bool", "inflight": "bool"},
-    split={"su": "each"},
-    witnesses=[{"su": 0, "sd": 0, "early": False, "inflight": True}, {"su": 1, "sd": 0, "early": True, "inflight": False}, {"su": 6, "sd": 3, "early": True, "inflight": False}],
+    dom={"su": (0, 7), "sd": (0, 5), "early": "bool", "inflight": "bool", "flavour": (0, 1)},
+    split={"su": "each", "flavour": "each"},
+    witnesses=[{"su": 0, "sd": 0, "early": False, "inflight": True, "flavour": 0}, {"su": 1, "sd": 0, "early": True, "inflight": False, "flavour": 0}, {"su": 6, "sd": 3, "early": True, "inflight": False, "flavour": 0},
+               {"su": 0, "sd": 0, "early": False, "inflight": True, "flavour": 1}, {"su": 3, "sd": 0, "early": True, "inflight": False, "flavour": 1}],
     budget=150,
     per_path=240,
-    bounds="asyncio worker_serve with 7 lifespan startup scripts x 5 shutdown scripts x a connection attempt before startup has finished or not x a request in flight at the trigger or not; startup_timeout=5, shutdown_timeout=4, graceful_timeout=3",
+    bounds="asyncio and trio worker_serve with 8 lifespan startup scripts x 6 shutdown scripts (incl. failed events without the optional message) x a connection attempt before startup has finished or not x a request in flight at the trigger or not; startup_timeout=5, shutdown_timeout=4, graceful_timeout=3",
     encodes=["hypercorn/asyncio/run.py::worker_serve", "hypercorn/asyncio/lifespan.py::Lifespan.handle_lifespan", "hypercorn/asyncio/lifespan.py::Lifespan.wait_for_startup",
-             "hypercorn/asyncio/lifespan.py::Lifespan.wait_for_shutdown", "hypercorn/asyncio/lifespan.py::Lifespan.asgi_send", "hypercorn/asyncio/tcp_server.py::TCPServer.run"],
-    stubs=["tier C, worker level: the real asyncio.start_server / base_events.Server on the virtual loop with a fake listening socket; randint stubbed", "trio worker_serve is outside this check (see DESIGN.md C14)"],
+             "hypercorn/asyncio/lifespan.py::Lifespan.wait_for_shutdown", "hypercorn/asyncio/lifespan.py::Lifespan.asgi_send", "hypercorn/asyncio/tcp_server.py::TCPServer.run",
+             "hypercorn/trio/run.py::worker_serve", "hypercorn/trio/lifespan.py::Lifespan.handle_lifespan", "hypercorn/trio/lifespan.py::Lifespan.wait_for_startup",
+             "hypercorn/trio/lifespan.py::Lifespan.wait_for_shutdown", "hypercorn/trio/tcp_server.py::TCPServer.run"],
+    stubs=["tier C, worker level: the real asyncio.start_server / base_events.Server on the virtual loop with a fake listening socket; randint stubbed",
+           "trio: the real worker_serve / trio.serve_listeners under trio.run() with a MockClock in a thread of its own (un-traced: the solver decides the choice vector, the session runs natively), in-memory listener and streams"],
 )
-def lifespan_ordering(su: int, sd: int, early: bool, inflight: bool) -> bool:  # noqa: C901
+def lifespan_ordering(su: int, sd: int, early: bool, inflight: bool, flavour: int) -> bool:  # noqa: C901
     """
-    pre: DOM(lifespan_ordering, su=su, sd=sd, early=early, inflight=inflight)
+    pre: DOM(lifespan_ordering, su=su, sd=sd, early=early, inflight=inflight, flavour=flavour)
     post: _
     """
     enter()
-    su = conc(su, 0, 6)
-    sd = conc(sd, 0, 4)
+    su = conc(su, 0, 7)
+    sd = conc(sd, 0, 5)
+    flavour = conc(flavour, 0, 1)
     early = True if early else False
     inflight = True if inflight else False
     cfg = make_config(startup_timeout=5, shutdown_timeout=4, graceful_timeout=3, keep_alive_timeout=50)
-    s = WSession(make_app(su, sd, {b"/slow": 1.5}), cfg)
+    s = _session_class(flavour)(make_app(su, sd, {b"/slow": 1.5}), cfg)
     why = ""
     # --- before startup has finished nobody listens
     if early and su in (3, 6) and (s.listening() or s.connect() is not None):
         why = "listening socket accepts connections before lifespan startup completed"
     s.advance(2.5)  # su == 6 completes at t=2
     serves = su in (0, 2, 4, 5, 6)
-    if not why and su == 1:
-        if not s.returned or not isinstance(s.error, LifespanFailureError):
+    if not why and su in (1, 7):
+        if not s.returned or not _is(s.error, LifespanFailureError):
             why = f"startup.failed did not abort the server: returned={s.returned} error={s.error!r}"
         elif s.listening() or any(e[0] == "request" for e in s.log):
             why = "something was served although startup failed"
-        return _fin(s, done(why == "", startup=STARTUP[su], why=why))
+        return _fin(s, done(why == "", startup=STARTUP[su], worker=["asyncio", "trio"][flavour], why=why))
     if not why and su == 3:
         s.advance(5)
-        if not s.returned or not isinstance(s.error, LifespanTimeoutError):
+        if not s.returned or not _is(s.error, LifespanTimeoutError):
             why = f"startup timeout did not abort the server: returned={s.returned} error={s.error!r}"
         elif s.listening():
             why = "listening although startup never completed"
-        return _fin(s, done(why == "", startup=STARTUP[su], why=why))
+        return _fin(s, done(why == "", startup=STARTUP[su], worker=["asyncio", "trio"][flavour], why=why))
     if not why and not s.listening():
         why = f"server is not listening after startup '{STARTUP[su]}' (error={s.error!r})"
     if not why:
@@ -181,11 +210,11 @@ def lifespan_ordering(su: int, sd: int, early: bool, inflight: bool) -> bool:  #
                 if err or not resps or not resps[0].complete:
                     why = f"in-flight request was not delivered in full: {resps!r} {err}"
             if not why:
-                if sd == 3 and not isinstance(s.error, LifespanTimeoutError):
+                if sd == 3 and not _is(s.error, LifespanTimeoutError):
                     why = f"hanging lifespan shutdown did not end in a timeout error: {s.error!r}"
-                elif sd == 1 and not isinstance(s.error, LifespanFailureError) and s.error is not None and not isinstance(s.error, BaseExceptionGroup):
+                elif sd in (1, 5) and not _is(s.error, LifespanFailureError) and s.error is not None and not isinstance(s.error, BaseExceptionGroup) and not getattr(s.error, "is_group", False):
                     why = f"unexpected error {s.error!r}"
-    return _fin(s, done(why == "", startup=STARTUP[su], shutdown=SHUTDOWN[sd], early=early, inflight=inflight, why=why))
+    return _fin(s, done(why == "", startup=STARTUP[su], shutdown=SHUTDOWN[sd], early=early, inflight=inflight, worker=["asyncio", "trio"][flavour], why=why))
 
 
 # ------------------------------------------------------------------ C15
@@ -196,24 +225,27 @@ KINDS = ["idle keep-alive connection", "half a request head", "short request (1 
 
 @harness(
     "C15",
-    dom={"k0": (0, 7), "k1": (-1, 7), "source": (0, 1), "sd": (0, 1)},
-    split={"k0": "each"},
-    witnesses=[{"k0": 3, "k1": 2, "source": 0, "sd": 0}, {"k0": 0, "k1": -1, "source": 1, "sd": 0}, {"k0": 4, "k1": 5, "source": 0, "sd": 1}],
+    dom={"k0": (0, 7), "k1": (-1, 7), "source": (0, 1), "sd": (0, 1), "flavour": (0, 1)},
+    split={"k0": "each", "flavour": "each", "source": "each"},
+    witnesses=[{"k0": 3, "k1": 2, "source": 0, "sd": 0, "flavour": 0}, {"k0": 0, "k1": -1, "source": 1, "sd": 0, "flavour": 0}, {"k0": 4, "k1": 5, "source": 0, "sd": 1, "flavour": 0},
+               {"k0": 3, "k1": 2, "source": 0, "sd": 0, "flavour": 1}, {"k0": 7, "k1": 0, "source": 1, "sd": 0, "flavour": 1}],
     budget=200,
     per_path=240,
-    bounds="asyncio worker_serve with 1..2 connections of 8 kinds (idle keep-alive, mid-head, short request, request longer than grace, HTTP/2 slow stream, open WebSocket, fresh, HTTP/2 with two streams finishing at different times within the grace period) at the trigger; trigger = callable or worker max_requests; lifespan shutdown completing or hanging; graceful_timeout=3, shutdown_timeout=4",
+    bounds="asyncio and trio worker_serve with 1..2 connections of 8 kinds (idle keep-alive, mid-head, short request, request longer than grace, HTTP/2 slow stream, open WebSocket, fresh, HTTP/2 with two streams finishing at different times within the grace period) at the trigger; trigger = callable or worker max_requests; lifespan shutdown completing or hanging; graceful_timeout=3, shutdown_timeout=4",
     encodes=["hypercorn/asyncio/run.py::worker_serve", "hypercorn/asyncio/tcp_server.py::TCPServer._idle_timeout", "hypercorn/asyncio/worker_context.py::WorkerContext.mark_request",
-             "hypercorn/protocol/h11.py::H11Protocol._maybe_recycle", "hypercorn/protocol/h2.py::H2Protocol._handle_events", "hypercorn/protocol/h2.py::H2Protocol.stream_send"],
-    stubs=["tier C worker level (asyncio only)"],
+             "hypercorn/protocol/h11.py::H11Protocol._maybe_recycle", "hypercorn/protocol/h2.py::H2Protocol._handle_events", "hypercorn/protocol/h2.py::H2Protocol.stream_send",
+             "hypercorn/trio/run.py::worker_serve", "hypercorn/trio/tcp_server.py::TCPServer._idle_timeout", "hypercorn/trio/worker_context.py::WorkerContext.mark_request"],
+    stubs=["tier C worker level: asyncio on the virtual loop; trio under trio.run() with a MockClock in its own (un-traced) thread"],
 )
-def graceful_shutdown(k0: int, k1: int, source: int, sd: int) -> bool:
+def graceful_shutdown(k0: int, k1: int, source: int, sd: int, flavour: int) -> bool:
     """
-    pre: DOM(graceful_shutdown, k0=k0, k1=k1, source=source, sd=sd)
+    pre: DOM(graceful_shutdown, k0=k0, k1=k1, source=source, sd=sd, flavour=flavour)
     post: _
     """
     enter()
     k0 = conc(k0, 0, 7)
     k1 = conc(k1, -1, 7)
+    flavour = conc(flavour, 0, 1)
     source = conc(source, 0, 1)
     sd = 3 if conc(sd, 0, 1) == 1 else 0
     kinds = [k0] + ([k1] if k1 >= 0 else [])
@@ -223,7 +255,7 @@ def graceful_shutdown(k0: int, k1: int, source: int, sd: int) -> bool:
     n_requests = sum(1 for k in kinds if k in (0, 2, 3, 4)) + sum(1 for k in kinds if k == 5) + 2 * kinds.count(7)
     cfg = make_config(startup_timeout=5, shutdown_timeout=ST, graceful_timeout=G, keep_alive_timeout=50,
                       max_requests=(n_requests if source == 1 else None))
-    s = WSession(make_app(0, sd, {b"/short": 1.5, b"/long": 1000, b"/h2slow": 1000, b"/h2a": 0.7, b"/h2b": 1.0}), cfg)
+    s = _session_class(flavour)(make_app(0, sd, {b"/short": 1.5, b"/long": 1000, b"/h2slow": 1000, b"/h2a": 0.7, b"/h2b": 1.0}), cfg)
     conns = []
     h2c = None
     for k in kinds:
@@ -321,7 +353,7 @@ def graceful_shutdown(k0: int, k1: int, source: int, sd: int) -> bool:
         for k, tr in zip(kinds, conns):
             if not tr.lost and not tr.closing:
                 why = f"{KINDS[k]} still open after serve() returned"
-    return _fin(s, done(why == "", kinds=[KINDS[k] for k in kinds], source=["callable", "max_requests"][source], shutdown=SHUTDOWN[sd], why=why))
+    return _fin(s, done(why == "", kinds=[KINDS[k] for k in kinds], source=["callable", "max_requests"][source], shutdown=SHUTDOWN[sd], worker=["asyncio", "trio"][flavour], why=why))
 
 
 # ------------------------------------------------------------------ per-connection copy of the lifespan state (both workers)
